@@ -113,9 +113,9 @@ class TokenFile:
         return self
 
     def delete(self):
-        if self.path.is_file():
-            logging.debug("Deleting token file %s", self.path)
-            self.path.unlink()
+        # The watcher of another process may remove the file at the same time
+        logging.debug("Deleting token file %s", self.path)
+        self.path.unlink(missing_ok=True)
 
     def watch(self):
         """Watch the matching process"""
